@@ -386,7 +386,7 @@ theorem serverReceive_inv (s : Nat) (fuel : Nat) (w : World) (hI : Inv w) :
           · exact ⟨h2, fun h' m' e => by cases e; exact hm⟩
         · split
           · exact ⟨h2, fun h' m' e => by cases e; exact hm⟩
-          · exact ih _ h2
+          · exact ih _ (h2.rcvRelease _ _)
 
 theorem connIdOf_spec (l : List (Option Pid)) (t : Pid) (k i : Nat) (h : connIdOf l t k = some i) :
     k ≤ i ∧ l.getD (i - k) none = some t := by
@@ -692,8 +692,8 @@ theorem Inv.opRespond {w : World} (hI : Inv w) (s a tag : Nat) : Inv (opRespond 
         · exact h2
         · next S hS =>
           split
-          · exact h2
-          · exact h2
+          · exact h2.updActive s a (fun x => { x with loans := x.loans - 1 }) (fun x => ⟨rfl, rfl, Nat.le_refl _⟩)
+          · exact h2.updActive s a (fun x => { x with loans := x.loans - 1 }) (fun x => ⟨rfl, rfl, Nat.le_refl _⟩)
           · exact h2.panic
           · next S' chunk hal =>
             have hk := allocate_key S
